@@ -58,6 +58,33 @@ def obligation_name(bundle, unit, desc):
     return '%s/%s: %s -- at `%s`' % (bundle, unit, desc['message'], snip[:120])
 
 
+def failed_clause(desc):
+    cl = None
+    for w in desc['where']:
+        if w['clause'] is not None:
+            if cl is None or (w.get('label') or '').startswith('failed'):
+                cl = w['clause']
+    return cl
+
+
+def is_own_failure(prop, desc, unit_own):
+    """A failed obligation is a violation candidate of `prop` only if it is one of prop's OWN obligations: a clause tagged or
+    attributed to prop, or an untagged clause of a unit whose contract belongs to prop.  Anything else that fails is a
+    *support* obligation: the proof of prop does not go through (undecided), which is not evidence that prop is violated.
+    Failures outside every clause (overflow, index, panic reachability in copied code) and failed preconditions of callees
+    are support failures too; the native hunt that follows treats a panic of the real code as a failing input."""
+    cl = failed_clause(desc)
+    if cl is None or 'precondition' in desc['message']:
+        # overflow / index / unreachable-panic obligations in copied code and callee preconditions at call sites: the proof
+        # does not go through; whether the real code misbehaves (wrong result or panic) is decided by native replay
+        return False
+    if cl.get('attr') is not None:
+        return prop in cl['attr']
+    if cl['tags']:
+        return prop in cl['tags'] or 'CANARY' in cl['tags']
+    return prop in unit_own.get(cl['fn'], [prop])
+
+
 def run_property(prop, cfg, tier, seed, jobs, work, rebaseline=False, only=None):
     t0 = time.time()
     log('== check %s tier=%s seed=%d repo=%s' % (prop, tier, seed, REPO))
@@ -76,6 +103,7 @@ def run_property(prop, cfg, tier, seed, jobs, work, rebaseline=False, only=None)
     n_clauses = 0
     bounded = []
     stability = []
+    support_failed = []
     extra_cov = {}
 
     # ---------------- Verus bundles ----------------
@@ -134,11 +162,16 @@ def run_property(prop, cfg, tier, seed, jobs, work, rebaseline=False, only=None)
             if r['status'] in ('ok', 'nothing'):
                 continue
             if r['status'] == 'fail':
+                unit_own = {x['fn']: x.get('own', x['props']) for x in br.g.units}
                 for e in r['errors']:
                     if V.RLIMIT_PAT.search(e['message']):
                         continue
                     d = br.describe_error(e)
-                    failures.append({'bundle': key, 'unit': u, 'obligation': obligation_name(key, u, d), 'detail': d, 'rendered': e.get('rendered', '')})
+                    if is_own_failure(prop, d, unit_own):
+                        failures.append({'bundle': key, 'unit': u, 'obligation': obligation_name(key, u, d), 'detail': d, 'rendered': e.get('rendered', '')})
+                    else:
+                        support_failed.append(obligation_name(key, u, d))
+                        undecided.append('%s/%s: a support obligation of the proof failed (not one of %s\'s own obligations): %s' % (key, u, prop, obligation_name(key, u, d)[:300]))
             else:
                 undecided.append('%s/%s: %s %s' % (key, u, r['status'], (r.get('stderr_tail') or (r['errors'][0]['message'] if r.get('errors') else ''))[-400:]))
         # canaries: the same file with `ensures false` added to each contracted exec function must FAIL there
@@ -295,6 +328,7 @@ def run_property(prop, cfg, tier, seed, jobs, work, rebaseline=False, only=None)
             'not_decided': cfg.get('not_decided', []),
             'samples': samples[:12] or ['(no sample)'],
             'failed_obligations': [f['obligation'] for f in failures],
+            'failed_support_obligations': support_failed,
             'undecided': undecided,
             'known_findings_reported': known_lines,
             'repo_head': _git_head(REPO),
